@@ -9,7 +9,9 @@ RULE = ("binary trees on 4..12 tips (thorough: up to 24), unrooted (root of degr
         "re-rootings), lengths present/zero/absent, supports, p-values, inner names, node and branch comments; plus every "
         "combination of parent-slot positions for caterpillar and balanced trees on 4..6 tips; the real NNIRearranger is driven "
         "as cmd/nni.go does (Apply, CheckTreePostOrder, Newick, Undo, CheckTreePostOrder) and the rearranged tree of every "
-        "proposal is dumped; non-trivial = at least one proposal; distinct = distinct case text")
+        "proposal is dumped; sequence cases give 2 or 3 trees (different sizes in both orders, rooted/unrooted mixes, the same tree "
+        "twice) to ONE NNIRearranger value one after the other, as the loop over a multi-tree input of cmd/nni.go does, every tree "
+        "judged on its own; non-trivial = at least one proposal; distinct = distinct case text")
 TRUSTED = ["tree built through NewNode/NewEdge + verif hooks (exact neighbour order); dump through Neigh()/Edges()/Left()/Right() "
            "with a pointer-level audit (symmetric adjacency, branches oriented away from the root)"]
 ASSUMPTIONS = ["the Newick text of the rearranged trees is compared with the writer model of Model/Newick.v (property C01)"]
@@ -25,12 +27,25 @@ def _msg(case):
 # Known finding: emitted by the judge only when every other check of the case passed (every proposal is a valid,
 # distinct neighbour, the tree is restored exactly, every other inner branch has its two proposals), the un-proposed
 # inner branch is the one through the degree-2 root, and the bug-compatible model reproduces Go's output exactly.
-MATCHERS = {
-    "C17-nni-root-branch": lambda case: case.get("kind") == "ORACLE"
-        and re.match(r"the inner branch through the degree-2 root \{.*\} gets no proposal, every other inner branch two: "
-                     r"\d+ proposals for \d+ inner branches \[the model agrees with the implementation\]$", _msg(case)) is not None
-        and bool((case.get("meta") or {}).get("rooted")) and (case.get("meta") or {}).get("root_inner_kids") == 2,
-}
+_ROOT_RE = re.compile(r"the inner branch through the degree-2 root \{.*\} gets no proposal, every other inner branch two: "
+                      r"\d+ proposals for \d+ inner branches \[the model agrees with the implementation\]"
+                      r"( \(tree (\d+) of \d+: same rearranger value\))?$")
+
+def _root_branch(case):
+    if case.get("kind") != "ORACLE":
+        return False
+    m = _ROOT_RE.match(_msg(case))
+    if m is None:
+        return False
+    meta = case.get("meta") or {}
+    if m.group(2) is None:      # single tree
+        return bool(meta.get("rooted")) and meta.get("root_inner_kids") == 2
+    # sequence case: the judge reports this message only when no tree of the sequence failed in any other way
+    ks = meta.get("root_inner_kids_seq") or []
+    i = int(m.group(2))
+    return 1 <= i <= len(ks) and ks[i - 1] == 2
+
+MATCHERS = {"C17-nni-root-branch": _root_branch}
 
 def binary_shape(rng, names, rootdeg):
     """random binary shape (nested lists); the root has rootdeg children"""
@@ -101,4 +116,34 @@ def gen(rng, tier):
         t = g.decorate(sh, lenmode=rng.choice(["all", "all", "mixed", "none"]), supmode=rng.choice(["mixed", "all", "none"]),
                        inner_names=rng.random() < 0.3, comments=rng.random() < 0.3, up_random=rng.random() < 0.85)
         add(t, "random")
+    # sequences: the same rearranger value for several trees
+    def rnd_tree(ntips=None, rooted=None):
+        ntips = ntips or rng.randint(4, 10)
+        if rooted is None:
+            rooted = rng.random() < 0.4
+        sh = binary_shape(rng, ["t%d" % i for i in range(ntips)], 2 if rooted else 3)
+        return g.decorate(sh, lenmode=rng.choice(["all", "mixed"]), supmode="mixed", inner_names=rng.random() < 0.2,
+                          comments=rng.random() < 0.2, up_random=rng.random() < 0.8)
+    def add_seq(ts, src):
+        metas = [meta_of(t, src) for t in ts]
+        out.append({"sx": sx({"trees": [T(t) for t in ts]}),
+                    "meta": {"src": src, "ntrees": len(ts), "ntips": max(m["ntips"] for m in metas),
+                             "rooted": any(m["rooted"] for m in metas),
+                             "root_inner_kids_seq": [m["root_inner_kids"] for m in metas]}})
+    nseq = {"quick": 70, "thorough": 1200, "search": 150}[tier]
+    for i in range(nseq):
+        style = i % 5
+        if style == 0:      # small then large
+            ts = [rnd_tree(rng.randint(4, 6)), rnd_tree(rng.randint(8, 12))]
+        elif style == 1:    # large then small
+            ts = [rnd_tree(rng.randint(8, 12)), rnd_tree(rng.randint(4, 6))]
+        elif style == 2:    # the same tree twice (two objects)
+            t = rnd_tree()
+            ts = [t, sx_to_tree(parse_sexp(tree_sx(t)))]
+        elif style == 3:    # same size, other shape; unrooted trees and rooted ones with a tip root child only
+            n = rng.randint(5, 9)
+            ts = [rnd_tree(n, False), rnd_tree(n, False), rnd_tree(n, False)]
+        else:
+            ts = [rnd_tree() for _ in range(rng.choice([2, 3]))]
+        add_seq(ts, "sequence")
     return out
